@@ -195,6 +195,9 @@ func nativeReplay(res *unitResult, scratch, bin string, info map[string]jobInfo)
 				if !ok && err != nil && strings.Contains(err.Error(), "timed out") {
 					reproduced = true
 					v.Msg += fmt.Sprintf(" [native: no result within %v on the same input]", limit)
+				} else if !ok && err != nil && (strings.Contains(string(out), "stack overflow") || strings.Contains(string(out), "goroutine stack exceeds")) {
+					reproduced = true
+					v.Msg += " [native: the process died of stack exhaustion on the same input]"
 				}
 			case !ok:
 				// the process died (fatal error, os.Exit, timeout): for a panic-type violation that is a reproduction
